@@ -167,6 +167,28 @@ def check(inp):
                 if fa.get(n, "").replace(a, "<D>") != fc.get(n, "").replace(c, "<D>"):
                     return "%s generated after %s in one process differs from a fresh run in %s" % (name, inp["first"], n)
             return None
+        if rel == "linelen":
+            # C13: other line-length limits move line breaks only: the text with all whitespace and Fortran continuation
+            # markers removed is the same, and no breakable line exceeds the limit by more than the marker
+            try:
+                generate(path, ["--option", "F_line_length=%d" % inp["F"], "--option", "C_line_length=%d" % inp["C"]], b)
+            except Exception as e:
+                return "%s fails with F_line_length=%d C_line_length=%d: %s" % (name, inp["F"], inp["C"], str(e)[:100])
+
+            def squash(n, t):
+                if n.endswith((".f", ".f90")):
+                    t = re.sub(r'&\s*\n\s*&?', '', t)
+                return re.sub(r'\s+', '', t)
+            fa, fb = files_of(a, CF), files_of(b, CF)
+            if sorted(fa) != sorted(fb):
+                return "%s: line length options change the set of files" % name
+            for n in sorted(fa):
+                if squash(n, fa[n]) != squash(n, fb[n]):
+                    x, y = squash(n, fa[n]), squash(n, fb[n])
+                    k = next((i for i in range(min(len(x), len(y))) if x[i] != y[i]), min(len(x), len(y)))
+                    return "%s: with F_line_length=%d C_line_length=%d the text of %s changes (not only its line breaks): ...%r / ...%r" % (
+                        name, inp["F"], inp["C"], n, x[max(0, k - 30):k + 30], y[max(0, k - 30):k + 30])
+            return None
         if rel == "names":
             import collections
             for n, text in files_of(a, (".c", ".cpp")).items():
@@ -232,6 +254,9 @@ def candidates(seed, around=None):
         fam.append({"rel": "names", "yaml": n})
         fam.append({"rel": "option", "yaml": n, "opt": "F_force_wrapper", "val": "true"})
         fam.append({"rel": "option", "yaml": n, "opt": "C_line_length", "val": "60"})
+    for n in names:
+        fam.append({"rel": "linelen", "yaml": n, "F": 60, "C": 60})
+        fam.append({"rel": "linelen", "yaml": n, "F": 100, "C": 50})
     for first in ("classes.yaml", "struct.yaml", "templates.yaml", "strings.yaml"):
         for n in names:
             if n != first:
